@@ -489,9 +489,9 @@ def sp_dbg_build(then):
     return f
 
 ALL3 = [['rox-std'], [], ['rox-positions']]
-FEATURE_GENS_QUICK = [['model', 400, 15], ['lexedge', 1], ['entity-boundary', 1], ['manyents', 1], ['manyattrs', 1], ['entities', 3]]
+FEATURE_GENS_QUICK = [['model', 400, 15], ['lexedge', 1], ['entity-boundary', 1], ['manyents', 1], ['manyattrs', 1], ['entities', 3], ['pairs', 1], ['ns', 1]]
 FEATURE_GENS_THOROUGH = [['model', 5000, 15], ['lexedge', 1], ['entity-boundary', 1], ['entities', 12], ['manyents', 1], ['manyattrs', 1], ['exotic', 40],
-                         ['sizes', 1], ['mut', 2000, 300], ['fixtures', 4000]]
+                         ['sizes', 1], ['mut', 2000, 300], ['fixtures', 4000], ['pairs', 1], ['ns', 3]]
 # how each property is decided under the crate's other feature sets: 'tie' = the same comparison with the
 # model and the same oracles; 'impl' = its implementation-only checks (the API dump of a build without
 # `positions` has no ranges, so it is not compared with the model's); C13 needs `positions`
@@ -538,9 +538,9 @@ SPECIALS = {
                       sp_ns_edge([(70000, 'many-refs', 'ok')])),
     'shift': sp_verdict('shift', [M], [MT, ['mut', 5000, 400]], 'impl-oracle',
                         also=sp_verdict('shapes', [M, ['fixtures', 4000], ['longattr', 1], ['sizes', 2]], [MT, ['fixtures', 20000], ['longattr', 1], ['sizes', 2], ['sizes-big', 1]], 'impl-oracle')),
-    'errshift': sp_verdict('shift', [['model', 1500, 40], ['mut', 1500, 300]], [['model', 20000, 40], ['mut', 20000, 400]], 'impl-oracle',
+    'errshift': sp_verdict('shift', [['model', 1500, 40], ['mut', 1500, 300], ['pairs', 1]], [['model', 20000, 40], ['mut', 20000, 400], ['pairs', 2]], 'impl-oracle',
                            also=chain(sp_gen_tie([['exotic', 10]], [['exotic', 100]]), sp_tp_huge)),
-    'limits': sp_verdict('limits', [M, ['mut', 500, 300], ['entities', 6], ['limitedge', 1], ['sizes', 1]], [MT, ['mut', 10000, 400], ['entities', 16], ['limitedge', 1], ['sizes', 1]], 'impl-oracle'),
+    'limits': sp_verdict('limits', [M, ['mut', 500, 300], ['entities', 6], ['limitedge', 1], ['sizes', 1], ['pairs', 1]], [MT, ['mut', 10000, 400], ['entities', 16], ['limitedge', 1], ['sizes', 1]], 'impl-oracle'),
     'dtdpairs': chain(sp_verdict('dtdpairs', [['limitedge', 1]], [['limitedge', 1]], 'impl-oracle'),
                       sp_verdict('dtdpairs', [['model', 2000, 20], ['mut', 1000, 400], ['enum', 2, 0], ['lexedge', 1]],
                                  [['model', 30000, 20], ['mut', 20000, 1000], ['enum', 3, 0], ['fixtures', 20000], ['lexedge', 1]], 'impl-oracle', limits=True),
